@@ -2,7 +2,7 @@ import threading
 from typing import Any, TypeVar
 
 from reactivex import abc, typing
-from reactivex.disposable import SerialDisposable
+from reactivex.disposable import MultipleAssignmentDisposable
 
 from .observer import Observer
 
@@ -22,7 +22,7 @@ class ScheduledObserver(Observer[_T_in]):
         self.is_acquired = False
         self.has_faulted = False
         self.queue: list[typing.Action] = []
-        self.disposable = SerialDisposable()
+        self.disposable = MultipleAssignmentDisposable()
 
         # Note to self: list append is thread safe
         # http://effbot.org/pyfaq/what-kinds-of-global-value-mutation-are-thread-safe.htm
